@@ -3,7 +3,7 @@
 
 mod clock_state_fsm;
 
-use clock_bound_shm::{ClockErrorBound, ShmWrite, ShmWriter};
+use clock_bound_shm::{ClockErrorBound, ClockStatus, ShmWrite, ShmWriter};
 use chrony_candm::reply::Tracking;
 use std::path::Path;
 use std::time::Duration;
@@ -42,6 +42,10 @@ where
 
     /// Reserved field.  Place-holder that is reserved for future use.
     reserved1: u32,
+
+    /// Whether `bound_nsec` and `as_of` hold a measurement obtained from chrony while synchronized.
+    /// Until then they are place-holders.
+    has_measurement: bool,
 }
 
 impl<W> ShmUpdater<W>
@@ -60,6 +64,7 @@ where
                 tv_nsec: 0,
             },
             reserved1: 0,
+            has_measurement: false,
         }
     }
 
@@ -78,13 +83,21 @@ where
             tv_nsec: 0,
         };
 
+        // As long as no clock error bound has been measured, there is nothing for the clients to
+        // inflate: a status other than Unknown would vouch for the place-holder bound of zero.
+        let clock_status = if self.has_measurement {
+            self.shm_clock_state.value()
+        } else {
+            ClockStatus::Unknown
+        };
+
         let ceb = ClockErrorBound::new(
             self.as_of,
             void_after,
             self.bound_nsec,
             self.max_drift_ppb,
             self.reserved1,
-            self.shm_clock_state.value(),
+            clock_status,
         );
 
         debug!("Writing ClockErrorBound to shared memory {:?}", ceb);
@@ -120,6 +133,7 @@ where
         if clock_status == ChronyClockStatus::Synchronized {
             self.bound_nsec = bound_nsec;
             self.as_of = as_of;
+            self.has_measurement = true;
         }
 
         // Finally write the new CEB out to shared memory.
